@@ -3,7 +3,8 @@
 From Coq Require Import ZArith List Bool Lia.
 Require Import Base.Bits Base.Iter Gen.Consts Gen.Types Model.Packet Model.Pool Model.Reader Model.Demux
   Model.Pes Model.Desc Model.Psi Model.DemuxFull
-  Proofs.SafeProofs Proofs.DemuxProofs Proofs.SafeUnits Proofs.SafeDesc Proofs.SafePsi Proofs.SafeDemux.
+  Proofs.SafeProofs Proofs.DemuxProofs Proofs.SafeUnits Proofs.SafeDesc Proofs.SafePsi Proofs.SafeDemux Proofs.SafeBound
+  Proofs.SafeEnd.
 Import ListNotations.
 Open Scope Z_scope.
 
@@ -114,6 +115,84 @@ Proof.
   exists (mk_dstate [] (Some (mk_pbuf (-1))) [] [] (new_reader [] None Plain) 0 [] []). vm_compute. reflexivity.
 Qed.
 Print Assumptions C03_unreachable_state_panics.
+
+(* ---- C03_progress / C03_bound: termination (reader that does not fail) ---- *)
+
+(* [dinv2 s] = the invariant above + the reader has no injected fault + the pool is sorted by PID; it holds of every
+   state reached from a fresh Demuxer over bytes_ok data by NextPacket / NextData (C03_nofault_invariant).
+   [potential s] = bytes left in the reader + (length of the input while no packet buffer exists) + number of buffered
+   data + for every pool entry 1 + (1 + payload length) per packet held.  [parser_bounded prs]: a PacketsParser, if
+   any, returns at most as many data as the weight (packets + payload bytes) of the group it is given. *)
+
+(* every call keeps the invariant, never increases the potential, and strictly decreases it unless it returns
+   ErrNoMorePackets: it consumed reader bytes, or popped the data buffer, or removed pool content *)
+Theorem C03_progress : forall prs skip c s, parser_no_panic prs -> parser_bounded prs -> dinv2 s ->
+  dinv2 (snd (call full_parsers prs skip c s)) /\
+  potential (snd (call full_parsers prs skip c s)) <= potential s /\
+  (fst (call full_parsers prs skip c s) <> Err E_nomore -> potential (snd (call full_parsers prs skip c s)) < potential s).
+Proof. exact call_potential. Qed.
+Print Assumptions C03_progress.
+
+Theorem C03_potential_nonneg : forall s, dinv2 s -> 0 <= potential s.
+Proof. exact potential_nonneg. Qed.
+Print Assumptions C03_potential_nonneg.
+
+Theorem C03_nofault_invariant : forall prs skip s, parser_no_panic prs -> parser_bounded prs ->
+  reachable_nofault prs skip s -> dinv2 s.
+Proof. exact reachable_nofault_inv2. Qed.
+Print Assumptions C03_nofault_invariant.
+
+(* hence: from any state, any sequence of more than potential(s) calls (NextPacket and NextData in any order, errors
+   ignored by the caller) contains one that returns ErrNoMorePackets *)
+Theorem C03_calls_reach_nomore : forall prs skip, parser_no_panic prs -> parser_bounded prs -> forall cs s, dinv2 s ->
+  potential s < Z.of_nat (length cs) -> In (Err E_nomore) (calls full_parsers prs skip cs s).
+Proof. exact calls_reach_nomore. Qed.
+Print Assumptions C03_calls_reach_nomore.
+
+(* from a fresh Demuxer (any reader kind, size option 0 or >= 188, any skipper) the potential is 2 * length input:
+   among the first 2 * length input + 1 calls — a fortiori among the first 3 * length input + 3 — one returns
+   ErrNoMorePackets *)
+Theorem C03_bound : forall prs skip data k opt cs, parser_no_panic prs -> parser_bounded prs -> bytes_ok data ->
+  (opt = 0 \/ C_MpegTsPacketSize <= opt) -> 3 * Z.of_nat (length data) + 3 <= Z.of_nat (length cs) ->
+  In (Err E_nomore) (calls full_parsers prs skip cs (init_dstate (new_reader data None k) opt)).
+Proof. exact bound_from_start_3. Qed.
+Print Assumptions C03_bound.
+
+Theorem C03_bound_2n : forall prs skip data k opt cs, parser_no_panic prs -> parser_bounded prs -> bytes_ok data ->
+  (opt = 0 \/ C_MpegTsPacketSize <= opt) -> 2 * Z.of_nat (length data) < Z.of_nat (length cs) ->
+  In (Err E_nomore) (calls full_parsers prs skip cs (init_dstate (new_reader data None k) opt)).
+Proof. exact bound_from_start. Qed.
+Print Assumptions C03_bound_2n.
+
+(* the first ErrNoMorePackets of NextData leaves nothing buffered, nothing pooled and nothing in the reader, and from
+   then on EVERY call, of either kind, with any parsers / skipper, returns ErrNoMorePackets *)
+Theorem C03_nomore_absorbing : forall prs skip s, dinv2 s -> fst (next_data full_parsers prs skip s) = Err E_nomore ->
+  forall P' prs' skip' cs, Forall (fun x => x = Err E_nomore) (calls P' prs' skip' cs (snd (next_data full_parsers prs skip s))).
+Proof. exact nomore_absorbing. Qed.
+Print Assumptions C03_nomore_absorbing.
+
+(* NextPacket returns ErrNoMorePackets only when the reader is used up (a truncated final packet is consumed and
+   treated as end of stream), and then keeps returning it *)
+Theorem C03_packet_nomore_stable : forall skip s, dinv2 s -> fst (next_packet skip s) = Err E_nomore ->
+  rem (d_reader (snd (next_packet skip s))) = 0 /\
+  forall skip', fst (next_packet skip' (snd (next_packet skip s))) = Err E_nomore.
+Proof. intros skip s Hs E. split; [exact (next_packet_nomore skip s Hs E)|exact (next_packet_nomore_stable skip s Hs E)]. Qed.
+Print Assumptions C03_packet_nomore_stable.
+
+(* hypotheses satisfiable, statements not vacuous: the one-packet stream above followed by a truncated packet (100 bytes):
+   NextData parses the unit, reaches the truncated tail and returns ErrNoMorePackets; potential 576 at the start;
+   the never-panicking, never-producing PacketsParser is bounded *)
+Example C03_bound_example :
+  let data := C03_example_stream ++ repeat 71 100 in
+  let s0 := init_dstate (new_reader data None Plain) 188 in
+  dinv2 s0 /\ potential s0 = 576 /\
+  calls full_parsers None no_skip [CallData; CallPacket; CallData] s0 = [Err E_nomore; Err E_nomore; Err E_nomore] /\
+  parser_bounded (Some (fun ps => Ok ([], false))).
+Proof.
+  cbv zeta. split; [apply init_inv2; [apply bytes_okb_ok; vm_compute; reflexivity|right; unfold C_MpegTsPacketSize; lia]|].
+  split; [vm_compute; reflexivity|]. split; [vm_compute; reflexivity|].
+  intros ps ds b E. inversion E; subst. cbn [length]. apply gw_nonneg.
+Qed.
 
 (* The statement this file carried before C03_no_panic was proved, kept for the record: over ALL states and ALL unit
    parsers it is false (C03_unreachable_state_panics); its provable content is C03_no_panic. *)
